@@ -50,6 +50,10 @@ CLAIMED = {
             "containers structurally; the call is repeated on the same path and results must be equal terms; np.empty yields fresh unknowns.",
             "Bounds as C01/C14; covers task metrics, evaluate(), adjust_intervals/adjust_events/merge_labeled_intervals, freq_to_voicing; sonify and separation "
             "numerics outside; two genuine mutations were fixed.", "5 (C15)"),
+    "C08": ("Same-path executions of the real metric on x and on its transformed copy (times + symbolic delta; permuted notes / frame frequencies / estimated "
+            "tempi / reference pattern list; label bijections per annotation); z3 shows the scores equal for all inputs on the path.",
+            "Bounds as C01 (<=2x2 for shifts in quick); beat.evaluate with beats >= 5 s; segment/hierarchy time shift not in the statement; P-score out of reach. "
+            "One genuine origin dependence (multipitch np.allclose relative tolerance) is a listed known finding.", "5 (C08)"),
 }
 
 NA_REASON = "check not built yet in this revision (planned; see DESIGN.md section 5)"
